@@ -1,8 +1,37 @@
-(* C18 — PrattParser honours declared precedence and associativity. Interim property file:
-   statements proved so far; the round-trip theorem is added by PrattProof.v. *)
+(* C18 — PrattParser honours declared precedence and associativity (statements; proofs in
+   PrattProof.v). `parse_expr tb f ts m` is the model of PrattParser.parse_expr on a stream
+   `ts` with min_prec = m; `canon tb m t` says that in t every operator accumulated by a call
+   at level m has precedence >= m (higher precedence binds tighter, equal precedence groups by
+   the declared associativity through `rprec`), prefix operands are parsed at the prefix
+   operator's precedence, and no operator is applied to a left operand whose right spine would
+   have taken it (`below .. (rthresh ..)`). *)
 From Coq Require Import List Arith.
 Import ListNotations.
-From PP Require Import Pratt.
+From PP Require Import Pratt PrattProof.
+
+(* the tree built is always canonical for the declared table ... *)
+Theorem C18_builds_canonical : forall tb f ts m t rest,
+  parse_expr tb f ts m = Some (t, rest) -> canon tb m t.
+Proof. exact parse_expr_canon. Qed.
+
+(* ... its in-order yield is exactly the consumed prefix of the stream ... *)
+Theorem C18_sound : forall tb f ts m t rest,
+  parse_expr tb f ts m = Some (t, rest) -> yield t ++ rest = ts.
+Proof. exact parse_expr_yield. Qed.
+
+(* ... every canonical tree is what the parser builds from its own yield (so the precedence
+   conditions are exact, not merely sufficient) ... *)
+Theorem C18_roundtrip : forall tb t m rest, canon tb m t -> nextok tb m t rest ->
+  exists f, parse_expr tb f (yield t ++ rest) m = Some (t, rest).
+Proof. exact roundtrip. Qed.
+
+(* ... hence the tree respecting the declared precedences is unique ... *)
+Theorem C18_unique : forall tb t1 t2 m, canon tb m t1 -> canon tb m t2 -> yield t1 = yield t2 -> t1 = t2.
+Proof. exact canon_unique. Qed.
+
+(* ... and a well-formed stream  operand (infix operand)*  is consumed completely *)
+Theorem C18_consumes_all : forall tb ts, wfs ts -> exists f t, parse_expr tb f ts 0 = Some (t, []).
+Proof. exact consumes_all. Qed.
 
 (* with PREFIX_OPS = {neg: 6} and POSTFIX_OPS = {fac: 5}, -a! is (-a)!; with fac: 7 it is -(a!) *)
 Definition tb1 : table := {| pre := fun _ => 6; post := fun _ => 5; inf := fun _ => (3, false) |}.
@@ -11,3 +40,12 @@ Example postfix_below_prefix : parse tb1 [KPre 0; KPrim 1; KPost 0] = Some (TPos
 Proof. reflexivity. Qed.
 Example postfix_above_prefix : parse tb2 [KPre 0; KPrim 1; KPost 0] = Some (TPre 0 (TPost (TPrim 1) 0), []).
 Proof. reflexivity. Qed.
+Example left_assoc : parse tb1 [KPrim 1; KInf 0; KPrim 2; KInf 0; KPrim 3]
+  = Some (TIn (TIn (TPrim 1) 0 (TPrim 2)) 0 (TPrim 3), []).
+Proof. reflexivity. Qed.
+
+Print Assumptions C18_builds_canonical.
+Print Assumptions C18_sound.
+Print Assumptions C18_roundtrip.
+Print Assumptions C18_unique.
+Print Assumptions C18_consumes_all.
